@@ -11,9 +11,16 @@
 
 enum { K_EXEC = 1, K_RET = 9, K_TID = 2 };
 
-static int counts[6][16]; // [region][element]
+enum { MAXE = 32 };
+static int counts[6][MAXE]; // [region][element]
+static int g_wild;           // operator applied to something outside the range
 static int tidcounts[6][8];
-VF_NOINSTR static void hit(int region, int e) { counts[region][e]++; }
+VF_NOINSTR static void hit(int region, int e) {
+  if (e < 0 || e >= MAXE)
+    g_wild++; // walked off the end of the container: not an element at all
+  else
+    counts[region][e]++;
+}
 VF_NOINSTR static void hit_tid(int region, int t) { tidcounts[region][t]++; }
 
 static std::string g_tag;
@@ -25,7 +32,12 @@ VF_NOINSTR static void check_region(int region, int n) {
                   .c_str(),
               "region %d: element %d of %d was processed %d times", region, e,
               n, counts[region][e]);
-  for (int e = n; e < 16; ++e)
+  if (g_wild)
+    vf_fail((g_tag + ":element-out-of-range").c_str(),
+            "region %d: the operator ran %d times on values that are not "
+            "elements of the range",
+            region, g_wild);
+  for (int e = n; e < MAXE; ++e)
     if (counts[region][e])
       vf_fail((g_tag + ":element-out-of-range").c_str(),
               "region %d: element %d processed but range has %d", region, e, n);
@@ -211,6 +223,10 @@ int main(int argc, char** argv) {
       add_da("vector", n, cs, steal, {1, 1}, 2, 0, 0, -1, 2, 2);
     }
     add_da("vector", 4, 1, steal, {2}, 2, 0, 0, 1, 3, 4);
+    // blocks long enough for a thief's "half of what I saw" to exceed, by
+    // more than a chunk, what is left when it gets the victim's lock
+    add_da("vector", 12, 1, steal, {2}, 2, 0, 0, steal ? 2 : 1, 2, 4);
+    add_da("vector", 14, 2, steal, {1, 1}, 2, 0, 0, -1, 2, 4);
     add_da("vector", 5, 2, steal, {3}, 3, 0, 0, 1, 1, 2);
     add_da("vector", 5, 1, steal, {2, 1}, 3, 0, 0, 1, 1, 2);
     add_da("vector", 4, 1, steal, {1, 1, 1}, 3, 0, 0, -1, 1, 2);
